@@ -27,7 +27,7 @@ ASSUMPTIONS = [
     "(its length rule round(rate*(t1-t0)) is not pinned by the statement); on-grid: exact",
     "deleteSegment/getFrames are called with start<=end",
 ]
-REQUIRED_CLASSES = ["history:offgrid_edit_wide", "history:insert", "history:delete", "history:replace", "history:reopen",
+REQUIRED_CLASSES = ["history:edits_back_to_back", "history:offgrid_edit_wide", "history:insert", "history:delete", "history:replace", "history:reopen",
                     "history:query_offgrid", "history:query_ongrid", "history:get_replace_get"]
 
 FMT = {1: "b", 2: "h", 4: "i"}
@@ -47,6 +47,8 @@ def to_bytes(samples, width):
 
 
 def from_bytes(b, width):
+    if len(b) % width != 0:
+        raise Violation("split-sample", f"{len(b)} bytes of audio are not a whole number of {width}-byte samples")
     return list(struct.unpack("<" + FMT[width] * (len(b) // width), b))
 
 
@@ -105,6 +107,9 @@ def run_history(case):
                 wav.concatenate(fr)
                 model.extend(new)
                 cl.add("concatenate")
+                if op.get("nocheck"):
+                    cl.add("edits_back_to_back")
+                    continue
             else:
                 t = t_of(op["t"])
                 i, tie = nearest(t, rate)
@@ -120,6 +125,9 @@ def run_history(case):
                 if offgrid(t) and width > 1:
                     cl.add("offgrid_edit_wide")
                 what += f" (t={t!r} -> index {i})"
+                if op.get("nocheck"):
+                    cl.add("edits_back_to_back")
+                    continue  # nothing is read between this edit and the next one
                 check_state(what)
                 # insert-then-delete restores
                 if new and not offgrid(t):
@@ -147,6 +155,9 @@ def run_history(case):
                 cl.add("delete")
                 if wide_off:
                     cl.add("offgrid_edit_wide")
+                if op.get("nocheck"):
+                    cl.add("edits_back_to_back")
+                    continue
             elif kind == "replace":
                 new = op["samples"]
                 wav.replaceSegment(t0, t1, to_bytes(new, width))
@@ -240,6 +251,7 @@ def run_history(case):
         for old, samples0 in watched:
             if from_bytes(old.frames, width) != samples0:
                 raise Violation("source-changed-through-subwav", f"{what}: a Wav that getSubwav was taken from changed when the sub-wav was edited")
+    check_state("after the last step")
     return {"classes": sorted(cl), "nontrivial": "offgrid_edit_wide" in cl}
 
 
@@ -271,6 +283,10 @@ def histories(draw):
             op["samples"] = draw(st.lists(sv, min_size=0, max_size=12))
         if kind == "insert":
             op["t"] = draw(time_spec())
+            if ops and ops[-1]["op"] == "concatenate" and ops[-1].get("nocheck") and draw(st.booleans()):
+                op["t"] = [-1 - draw(st.integers(0, 5)), 0.0]  # inside the stretch that was just appended
+        if kind in ("insert", "concatenate", "delete"):
+            op["nocheck"] = draw(st.integers(0, 2)) == 0  # the next operation follows without any read in between
         if kind == "get_replace_get":
             op["t0"], op["t1"] = [draw(st.integers(0, 400)), 0.0], [draw(st.integers(0, 400)), 0.0]
             op["fill"] = draw(sv)
